@@ -1240,6 +1240,10 @@ class Expr:
         elif self.kind == "item":
             ct = self.operands[0].get_type()
             if ct.kind == "list":
+                index = self.operands[1]
+                if index.kind == "constant" and isinstance(index.operands[0], integer_types):
+                    # the type of the selected item is known exactly
+                    return ct.param[index.operands[0]]
                 kinds = set()
                 params = set()
                 for it in ct.param:
